@@ -312,14 +312,37 @@ func (x *c11Exp) add(e *c11Expr, strict, viaTarget bool) int {
 			op, st = pOpWhile, true
 		}
 		x.toks = append(x.toks, c11Tok{op: op, what: "If/While"})
-		x.add(e.args[0], st, false)
-		for _, s := range e.body {
-			x.add(s, st, false)
+		kids := []int{x.add(e.args[0], st, false)}
+		swallows := false
+		for i, s := range e.body {
+			if c11IsBlock(s) && i < len(e.body)-1 {
+				s.followed, swallows = true, true
+			}
+			if j := x.add(s, st, false); j >= 0 {
+				kids = append(kids, j)
+			}
+		}
+		if st && !swallows && !e.followed {
+			// a block parsed in the deferred pass has a scope of its own: it holds its predicate and exactly
+			// its statements. Not demanded outside deferred blocks (an If has no scope there, open finding K6)
+			// nor around a nested block that is followed by further statements: such a block swallows them
+			// into its own scope (the other face of open finding K9; their order is still compared)
+			x.toks[idx].kids, x.toks[idx].check = kids, true
 		}
 	case c11EElse:
 		x.toks = append(x.toks, c11Tok{op: pOpElse, what: "Else"})
-		for _, s := range e.body {
-			x.add(s, strict, false)
+		var kids []int
+		swallows := false
+		for i, s := range e.body {
+			if c11IsBlock(s) && i < len(e.body)-1 {
+				s.followed, swallows = true, true
+			}
+			if j := x.add(s, strict, false); j >= 0 {
+				kids = append(kids, j)
+			}
+		}
+		if strict && !swallows && !e.followed {
+			x.toks[idx].kids, x.toks[idx].check = kids, true
 		}
 	case c11ENameDecl:
 		x.toks = append(x.toks, c11Tok{op: pOpName, check: true, what: "method-local Name"})
